@@ -711,3 +711,24 @@ Proof.
   - apply run_ret in R3. destruct R3 as [_ K]. inversion K.
   - apply run_ret in R3. destruct R3 as [_ K]. inversion K.
 Qed.
+
+(* ================================================================ C03 (application half): only the lock holder acts *)
+(* a manager iteration that is not told it holds the lock issues nothing after asking *)
+Theorem no_lock_no_action cfg env m tr o :
+  runs (manager_gates cfg env m) tr o ->
+  match tr with
+  | e0 :: e1 :: rest =>
+      ev_call e0 = DcsConnected /\ ev_call e1 = LockAcquire /\
+      (ev_resp e1 <> RBool true -> rest = [] /\ o = Done (GNext NxCandidate, m))
+  | [e0] => ev_call e0 = DcsConnected /\ o = Done (GNext NxLost, m)
+  | [] => False
+  end.
+Proof.
+  unfold manager_gates. cbn [bind runs]. destruct tr as [|e0 tr0]; [intros []|]. intros (_ & Ec0 & H).
+  destruct (match ev_resp e0 with RBool b => b | _ => false end) eqn:Eb; cbn [negb] in H.
+  - unfold lock_acquire in H. cbn [bind runs] in H. destruct tr0 as [|e1 tr1]; [destruct H|]. destruct H as (_ & Ec1 & H).
+    split; [exact Ec0|]. split; [exact Ec1|]. intros Hn.
+    destruct (ev_resp e1) as [| |b| | | | | | | | | | | |]; try (cbn in H; destruct H as [-> ->]; auto).
+    destruct b; [exfalso; apply Hn; reflexivity|]. cbn in H. destruct H as [-> ->]. auto.
+  - destruct (ev_resp e0); cbn in H; destruct H as [-> ->]; auto.
+Qed.
